@@ -527,7 +527,7 @@ class Beam(_Simu):
             options.extend(["N", "Ty", "Tz", "Mx", "My", "Mz"])
             options.extend(["Sxx", "Syy", "Szz", "Syz", "Sxz", "Sxy"])
 
-        options.extend(["Srain", "Stress"])
+        options.extend(["Strain", "Stress"])
 
         return options
 
@@ -617,11 +617,16 @@ class Beam(_Simu):
             values = Sigma_e[:, index]
 
         elif result in ["ux'", "rx'", "ry'", "rz'"]:
-            coef = 1 if result == "Exx" else 1 / 2
-
             Epsilon_e = self._Calc_Epsilon_e_pg(self.displacement).mean(1)
             index = self._indexResult(result)
-            values = Epsilon_e[:, index] * coef
+            values = Epsilon_e[:, index]
+
+        elif result == "Strain":
+            values = self._Calc_Epsilon_e_pg(self.displacement).mean(1)
+
+        elif result == "Stress":
+            Epsilon_e_pg = self._Calc_Epsilon_e_pg(self.displacement)
+            values = self._Calc_Sigma_e_pg(Epsilon_e_pg).mean(1)
 
         else:
             Terminal.MyPrintError(f"The result '{result}' is not implemented yet.")
@@ -638,7 +643,23 @@ class Beam(_Simu):
 
         dim = self.dim
 
-        if "ux" in result or "fx" in result:
+        if result in ["Sxx", "Syy", "Szz", "Syz", "Sxz", "Sxy"]:
+            # columns of _Calc_Sigma_e_pg
+            stresses = {
+                1: ["Sxx"],
+                2: ["Sxx", "Syy", "Sxy"],
+                3: ["Sxx", "Syy", "Szz", "Syz", "Sxz", "Sxy"],
+            }[dim]
+            return stresses.index(result)
+        elif result in ["ux'", "rx'", "ry'", "rz'"]:
+            # columns of _Calc_Epsilon_e_pg
+            strains = {
+                1: ["ux'"],
+                2: ["ux'", "rz'"],
+                3: ["ux'", "rx'", "ry'", "rz'"],
+            }[dim]
+            return strains.index(result)
+        elif "ux" in result or "fx" in result:
             return 0
         elif ("uy" in result or "fy" in result) and dim >= 2:
             return 1
